@@ -42,18 +42,22 @@ def corr_modules():
     return mods
 
 
-def lean_extra():
+def lean_extra(prop="C02"):
+    """Extra Props modules audited for `prop`: the node-group modules contribute their `cNN_` theorems."""
     import os
     from .. import common
-    out = list(EXTRA)
+    pre = prop.lower() + "_"
+    out = []
+    if prop == "C02":
+        out.append("StreamzVerif.Props.C13")            # rate_limit / delay: order, count, nothing lost
     for m in ("AsyncBuffer", "AsyncWindows", "AsyncZip"):
         if os.path.exists(os.path.join(common.LEAN_DIR, "StreamzVerif", "Props", m + ".lean")):
-            out.append("StreamzVerif.Props." + m)
+            out.append(("StreamzVerif.Props." + m, pre))
     return out
 
 
 def run(ctx):
-    ctx.audit(extra_modules=lean_extra())
+    ctx.audit(extra_modules=lean_extra("C02"))
     n = 150 if not ctx.thorough() else 5000
     A.sweep(ctx, n, KINDS, ["lossless"], SIGS, corpus=CORPUS, p_zip=0.25)
     for m in corr_modules():
@@ -68,7 +72,7 @@ def run(ctx):
 
 
 def replay(ctx, data):
-    ctx.audit(extra_modules=lean_extra())
+    ctx.audit(extra_modules=lean_extra("C02"))
     case = data["case"]
     ac.evaluate(ctx, case, ac.rerun(case), ["lossless"], SIGS)
     ctx.coverage["rule"] = "replay of one recorded case"
